@@ -7,19 +7,29 @@ snapshots taken before typhon touches a dataset:
 built   every compact pair list (sequence of distinct pairs, order matters)
         of <=3 (quick) / <=4 (thorough) pairs over 3 x 3 points, as a
         harness-built dataset in the layout of Collocator._create_return;
-        expand, collapse with reference default / primary / secondary and a
-        custom collapser.
+        expand, collapse with reference default / primary / secondary and
+        custom collapsers. The lists of <=2 / <=3 pairs once more with the
+        extra variables (below).
 real    Collocator().collocate on every pair of point sequences (<=3
         primary, <=2 / <=3 secondary points from 4 kinds of points), under
-        every member of the shuffle family; pair validity, then the same
-        operations.
+        every member of the shuffle family; pair validity, the stored
+        points against the input points, then the same operations. The
+        sequences of <=2 primary and 1 / <=2 secondary points once more with
+        the extra variables, and once more as scan line x scan position
+        grids (the result stores the grid position of every point and has
+        the collocation dimension last).
 concat  every list of <=3 / <=4 datasets from a pool of 6 (built and real
-        ones; <=2 / <=3 with the second pair of group names), once with
-        separate copies and, for lists naming a pool entry twice, with the
-        same object listed twice.
+        ones with the extra variables; <=2 / <=3 with the second pair of
+        group names), once with separate copies and, for lists naming a pool
+        entry twice, with the same object listed twice.
 large   every compact pattern of <=2 / <=3 pairs replicated to just below
         and to at least 1000 (thorough also 1200) pairs, in three sharing
         modes and two pair orders.
+
+Every dataset has per-point variables of 0..2 extra dimensions (one with a
+"/" in its name). The extra variables are a per-point bool and, without the
+collocation dimension, a channel coordinate, a per-channel variable, a
+scalar number and a scalar string (the scalars differ between datasets).
 """
 import collections
 import contextlib
@@ -39,14 +49,27 @@ LEVEL = "exploration"
 RULE = ("one case = one dataset (built/real/large) or one list of datasets "
         "(concat) on which every operation is evaluated; cases are distinct "
         "by construction (enumeration without repetition; shuffle "
-        "permutations are deduplicated for the observed index size). "
+        "permutations are deduplicated for the observed index size; a "
+        "dataset with and without the extra variables, linear and gridded "
+        "inputs are different cases). "
         "Non-trivial = built/large: the pair list is not the ascending "
         "one-to-one list; real: collocate returned a dataset with >= 2 "
         "pairs; concat: the list has >= 2 entries.")
 ASSUMPTIONS = [
     "row order of expand() and collapse() is not fixed by the statement: "
     "expanded rows are compared as multisets, collapsed rows are identified "
-    "by the reference group's id variable",
+    "by the reference group's id variable and have to carry all variables "
+    "of that reference point (time, lat, lon under their name or at the "
+    "root level)",
+    "a variable without collocation dimension belongs to every point of "
+    "its dataset: every expanded row carries its value (in the result it "
+    "may or may not have the collocation dimension), so rows of a "
+    "concatenation carry the value of the dataset they came from; collapse "
+    "may drop such a variable but not change it",
+    "not enumerated: group names containing '/', non-numeric per-point "
+    "variables in the collapsed group (no mean defined), datasets whose "
+    "extra dimensions or channel labels differ within one concat list, "
+    "grids with more than one scan position",
     "variables whose partners are all NaN must give mean/std NaN and number "
     "0 (what a NaN-ignoring mean of nothing is in numpy)",
     "custom collapsers are called as f(matrix, axis) and must ignore NaN "
@@ -110,20 +133,26 @@ def check_expand(ds, snap, part="expand", expected=None):
         n_exp, n_obs = sum(expected.values()), sum(observed.values())
         if n_exp != n_obs:
             return (part + "/row-count", n_exp, n_obs, "")
-        return (part + "/rows-are-not-the-pairs", short(expected, snap),
-                short(observed, snap),
-                "[primary id, secondary id, per-pair metadata] of each row")
+        identifying = [g + "/" + model.ID for g in snap.names] + \
+            sorted(snap.per_pair)
+        shown = identifying + [
+            v for v in model.differing_variables(expected, observed)
+            if v not in identifying]
+        return (part + "/rows-are-not-the-pairs", short(expected, shown),
+                short(observed, shown), "%s of each row" % shown)
     return None
 
 
-def short(rows, snap):
-    """The identifying part of expanded rows: ids and per-pair metadata."""
-    wanted = [g + "/" + model.ID for g in snap.names] + sorted(snap.per_pair)
+def short(rows, shown):
+    """Expanded rows reduced to the variables `shown`: the identifying ones
+    (ids, per-pair metadata) and those that differ between expectation and
+    observation."""
     out = []
     for row in rows.elements():
         values = dict(row)
-        out.append([values[name][0] for name in wanted])
-    return sorted(out)
+        out.append([list(values[name]) if name in values else None
+                    for name in shown])
+    return sorted(out, key=repr)
 
 
 def check_collapse(ds, snap):
@@ -202,23 +231,25 @@ def fixed_shuffle(name, sizes):
         np.random.shuffle = original
 
 
-def real_inputs(prim_kinds, sec_kinds, id_base=0):
-    out = []
-    for side, (kinds, dim) in enumerate(zip((prim_kinds, sec_kinds),
-                                            ("pa", "pb"))):
-        variables = model.point_variables(
-            len(kinds), side, id_base + 100 + 400 * side,
-            lat=[0.0] * len(kinds), lon=[0.3 * KINDS[k][0] for k in kinds],
-            secs=[SECONDS[side][k] for k in kinds])
-        out.append(model.input_dataset(
-            variables, dim, LABELS[side][:len(kinds)]))
-    return out
+def real_variables(prim_kinds, sec_kinds, id_base=0, extras=False):
+    return [model.point_variables(
+        len(kinds), side, id_base + 100 + 400 * side,
+        lat=[0.0] * len(kinds), lon=[0.3 * KINDS[k][0] for k in kinds],
+        secs=[SECONDS[side][k] for k in kinds], extras=extras)
+        for side, kinds in enumerate((prim_kinds, sec_kinds))]
 
 
-def collocate(prim_kinds, sec_kinds, shuffle_name, id_base=0, names=0):
-    """-> (result or None or Exception, sizes that were shuffled)."""
+def collocate(prim_kinds, sec_kinds, shuffle_name, id_base=0, names=0,
+              extras=False, layout="linear"):
+    """layout "grid": both inputs are scan line x scan position grids.
+    -> (result or None or Exception, sizes that were shuffled)."""
     from typhon.collocations import Collocator
-    prim, sec = real_inputs(prim_kinds, sec_kinds, id_base)
+    prim, sec = [
+        model.input_dataset(variables, dim, LABELS[side][:len(kinds)],
+                            layout == "grid")
+        for side, (variables, kinds, dim) in enumerate(zip(
+            real_variables(prim_kinds, sec_kinds, id_base, extras),
+            (prim_kinds, sec_kinds), ("pa", "pb")))]
     sizes = []
     with fixed_shuffle(shuffle_name, sizes):
         try:
@@ -245,10 +276,12 @@ def expected_id_pairs(prim_kinds, sec_kinds, id_base=0):
             for j, s in enumerate(sec_kinds) if collocated(p, s)}
 
 
-def check_real(prim_kinds, sec_kinds, shuffle_name):
+def check_real(prim_kinds, sec_kinds, shuffle_name, extras=False,
+               layout="linear"):
     """-> dict(outcome, pairs, bad = violation tuple or None, sizes =
     shuffled sizes, layout = signature of the result)."""
-    result, sizes = collocate(prim_kinds, sec_kinds, shuffle_name)
+    result, sizes = collocate(prim_kinds, sec_kinds, shuffle_name,
+                              extras=extras, layout=layout)
     out = dict(outcome="dataset", pairs=0, bad=None, sizes=sizes, layout=None)
     exp = expected_id_pairs(prim_kinds, sec_kinds)
     if result is None:
@@ -270,6 +303,18 @@ def check_real(prim_kinds, sec_kinds, shuffle_name):
         return dict(out, bad=(
             "pairs/stored-points-are-not-the-collocated-points", sorted(exp),
             got, "(primary id, secondary id) per pair"))
+    for side, variables in enumerate(real_variables(prim_kinds, sec_kinds,
+                                                    extras=extras)):
+        position = None
+        if layout == "grid":
+            position = {i: dict(scnline=LABELS[side][k],
+                                scnpos=LABELS[side][0])
+                        for k, i in enumerate(variables[model.ID][1].tolist())}
+        wrong = model.stored_point_mismatch(snap, side, variables, position)
+        if wrong:
+            return dict(out, bad=(
+                "pairs/stored-point-differs-from-the-input-point", wrong[2],
+                wrong[3], "%s of the point with id=%s" % wrong[:2]))
     return dict(out, bad=check_expand(result, snap)
                 or check_collapse(result, snap))
 
@@ -310,8 +355,10 @@ def pool_dataset(k, names):
     """A fresh dataset for pool entry k (ids are disjoint between entries)."""
     entry = POOL[k]
     if entry[0] == "built":
-        return model.built_dataset(NAMES[names], entry[1], id_base=1000 * k)
-    result, _ = collocate(entry[1], entry[2], "rev", 1000 * k, names)
+        return model.built_dataset(NAMES[names], entry[1], id_base=1000 * k,
+                                   extras=True)
+    result, _ = collocate(entry[1], entry[2], "rev", 1000 * k, names,
+                          extras=True)
     if result is None or isinstance(result, Exception):
         raise RuntimeError("pool entry %d: collocate gave %r" % (k, result))
     return result
@@ -414,9 +461,13 @@ def shards(tier, seed):
         for length in range(1, (3 if quick else 4) + 1):
             for first in range(9 if length > 2 else 1):
                 out.append(("built", names, length,
-                            first if length > 2 else None))
+                            first if length > 2 else None, False))
+        out.append(("built", names, 2 if quick else 3, None, True))
     for prim in kind_sequences(3):
-        out.append(("real", prim, 2 if quick else 3))
+        out.append(("real", prim, 2 if quick else 3, False, "linear"))
+    for prim in kind_sequences(2):
+        out.append(("real", prim, 1 if quick else 2, True, "linear"))
+        out.append(("real", prim, 1 if quick else 2, False, "grid"))
     maxlist = 3 if quick else 4
     for prefix in itertools.product(range(len(POOL)), repeat=2):
         out.append(("concat", 0, prefix, maxlist))
@@ -432,16 +483,20 @@ def report(res, case, bad, rerun):
 
 
 def run_built(res, shard):
-    _, names, length, first = shard
+    """Every pair list of `length` pairs (starting with pair number `first`),
+    or, with extras, of up to `length` pairs."""
+    _, names, length, first, extras = shard
     universe = [(i, j) for i in range(3) for j in range(3)]
     case = None
-    for pairs in model.compact_pair_lists(length):
+    for pairs in itertools.chain.from_iterable(
+            model.compact_pair_lists(n)
+            for n in range(1 if extras else length, length + 1)):
         if first is not None and pairs[0] != universe[first]:
             continue
-        case = dict(part="built", names=names, pairs=pairs)
+        case = dict(part="built", names=names, pairs=pairs, extras=extras)
         res.case(nontrivial=not model.is_plain(pairs))
-        res.count("typhon_calls", 5)
-        bad = check_dataset(model.built_dataset(NAMES[names], pairs))
+        res.count("typhon_calls", 7)
+        bad = replay_case(case)
         if bad:
             report(res, case, bad, lambda: replay_case(case))
     if case:
@@ -449,27 +504,31 @@ def run_built(res, shard):
 
 
 def run_real(res, shard):
-    _, prim, max_sec = shard
+    _, prim, max_sec, extras, layout = shard
     case = None
-    reference = model.signature(model.built_dataset(NAMES[0], [(0, 0)]))
+    reference = model.signature(model.built_dataset(
+        NAMES[0], [(0, 0)], extras=extras))
     for sec in kind_sequences(max_sec):
         todo = ["id"]
         while todo:
             shuffle = todo.pop(0)
             case = dict(part="real", primary=prim, secondary=sec,
-                        shuffle=shuffle)
-            got = check_real(prim, sec, shuffle)
+                        shuffle=shuffle, extras=extras, layout=layout)
+            got = check_real(prim, sec, shuffle, extras, layout)
             if shuffle == "id":
                 todo = shuffle_family(got["sizes"])
             dataset = got["outcome"] == "dataset"
             res.case(nontrivial=dataset and got["pairs"] >= 2)
             res.count("real_" + got["outcome"])
-            res.count("typhon_calls", 6 if dataset else 1)
+            res.count("typhon_calls", 8 if dataset else 1)
             if got["bad"]:
                 report(res, case, got["bad"], lambda: replay_case(case))
             elif dataset:
                 res.add("real_pair_counts", got["pairs"])
-                if got["layout"] != reference:
+                # results for grids have no harness-built counterpart (the
+                # collocation dimension comes last, the grid position of
+                # every point is stored)
+                if layout == "linear" and got["layout"] != reference:
                     res.error("harness-built layout differs from a real "
                               "result: %r vs %r" % (reference, got["layout"]))
     res.sample(case)
@@ -503,7 +562,7 @@ def run_large(res, shard):
                     order=order)
         pairs = replicate(pattern, copies, mode, order)
         res.case(nontrivial=not model.is_plain(pairs))
-        res.count("typhon_calls", 5)
+        res.count("typhon_calls", 7)
         res.maximum("pairs_in_one_dataset", len(pairs))
         bad = replay_case(case)
         if bad:
@@ -523,10 +582,12 @@ def replay_case(case):
     part = case["part"]
     if part == "built":
         return check_dataset(model.built_dataset(
-            NAMES[case["names"]], [tuple(p) for p in case["pairs"]]))
+            NAMES[case["names"]], [tuple(p) for p in case["pairs"]],
+            extras=case["extras"]))
     if part == "real":
         return check_real(tuple(case["primary"]), tuple(case["secondary"]),
-                          case["shuffle"])["bad"]
+                          case["shuffle"], case["extras"],
+                          case["layout"])["bad"]
     if part == "concat":
         return check_concat(tuple(case["pool"]), case["same_object"],
                             case["names"])
